@@ -35,3 +35,12 @@ Fixpoint remove_at {A} (i : nat) (l : list A) : list A :=
   | _ :: l', O => l'
   | x :: l', S i' => x :: remove_at i' l'
   end.
+
+(* the list holds fewer than 2^31 names (hostlist.c counts in `int`) *)
+Definition small (h : hostlist) : Prop := (Z.of_nat (length (expand h)) < 2147483648)%Z.
+
+(* every name fits hostlist_nth's buffer: prefix + printed number at most HRSTR_LIMIT - 1 = 78 bytes
+   (the property's quantifier has 63) *)
+Definition short_range (r : hrange) : Prop :=
+  (length (hr_prefix r) + (if hr_single r then 0 else Nat.max (hr_width r) (ndigits (hr_hi r))) <= N.to_nat PM.Gen.GenHL.HRSTR_LIMIT - 1)%nat.
+Definition short (h : hostlist) : Prop := Forall short_range h.
